@@ -269,7 +269,7 @@ def run(R):
         if R.rng.random() < 0.25:
             c["pre"] = gen(R, n)[0]
         cases.append(c)
-    run_cases(R, cases, 20.0 if R.thorough else 5.0)
+    run_cases(R, cases, 60.0 if R.thorough else 20.0)
 
 
 def replay(R, rep):
